@@ -357,6 +357,10 @@ def run(rep, ix, tier):
     from . import C10
     C10.check_pred(rep, ix)
     rep.floor('R-C10-PRED', 8)
+    # one LAS file per log pass needs every log pass of a BIT file to reach the list the converter iterates: rule of C13
+    from . import C13
+    C13.check_passes(rep, ix)
+    rep.floor('R-C13-PASSES', 4)
     typeflow.check_attrs(rep, ix, 'R-C11-ATTR', [(RT, None), (LT, None), (BT, None)])
     rep.floor('R-C11-SELECT', 20)
     rep.floor('R-C11-WELL', 14)
